@@ -73,37 +73,46 @@ def range_bound(T, e):
     return type(e) in (T.Word, T.Phrase) or (type(e) is T.Prohibit and type(e.a) in (T.Word, T.Phrase))
 
 
-def wellformed(T, t, zeal, parent=None):
+def wellformed(T, t, zeal, parent=None, lenient=False):
+    """lenient: the bounds of a two-sided range are VALUES (dates, date math, paths, signed numbers), not terms of
+    the query: the zealous rule on + / - in a word does not apply to them (Python oracle only; the Coq predicate
+    `wellformed` is the strict one)"""
     k = type(t)
     z = bool(zeal)
+    if lenient:
+        def wellformed_(T_, t_, zeal_, parent_=None):
+            return wellformed(T_, t_, zeal_, parent_, lenient=True)
+    else:
+        wellformed_ = wellformed
     if k is T.Word:
         return (not any(is_space(c) for c in t.value)) and not (z and any(c in "+/-" for c in t.value))
     if k in (T.Phrase, T.Regex):
         return True
     if k is T.SearchField:
-        return valid_field_name(t.name) and value_expr(T, t.expr) and wellformed(T, t.expr, zeal, k)
+        return valid_field_name(t.name) and value_expr(T, t.expr) and wellformed_(T, t.expr, zeal, k)
     if k is T.Group:
-        return parent is not T.SearchField and wellformed(T, t.expr, zeal, k)
+        return parent is not T.SearchField and wellformed_(T, t.expr, zeal, k)
     if k is T.FieldGroup:
-        return parent is T.SearchField and wellformed(T, t.expr, zeal, k)
+        return parent is T.SearchField and wellformed_(T, t.expr, zeal, k)
     if k is T.Range:
-        return (range_bound(T, t.low) and range_bound(T, t.high) and wellformed(T, t.low, zeal, k)
-                and wellformed(T, t.high, zeal, k))
+        zb = 0 if lenient else zeal
+        return (range_bound(T, t.low) and range_bound(T, t.high) and wellformed_(T, t.low, zb, k)
+                and wellformed_(T, t.high, zb, k))
     if k is T.Fuzzy:
-        return (type(t.term) is T.Word and wellformed(T, t.term, zeal, k)
+        return (type(t.term) is T.Word and wellformed_(T, t.term, zeal, k)
                 and not t.degree.is_signed())
     if k is T.Proximity:
-        return type(t.term) is T.Phrase and wellformed(T, t.term, zeal, k)
+        return type(t.term) is T.Phrase and wellformed_(T, t.term, zeal, k)
     if k is T.Boost:
-        return wellformed(T, t.expr, zeal, k)
+        return wellformed_(T, t.expr, zeal, k)
     if k in (T.AndOperation, T.OrOperation, T.UnknownOperation, T.BoolOperation):
-        return all(wellformed(T, c, zeal, k) for c in t.operands)
+        return all(wellformed_(T, c, zeal, k) for c in t.operands)
     if k in (T.Plus, T.Not, T.Prohibit):
         if z and k in (T.Not, T.Prohibit) and parent is T.OrOperation:
             return False
-        return wellformed(T, t.a, zeal, k)
+        return wellformed_(T, t.a, zeal, k)
     if k in (T.From, T.To):
-        return range_bound(T, t.a) and wellformed(T, t.a, zeal, k)
+        return range_bound(T, t.a) and wellformed_(T, t.a, zeal, k)
     return False          # NoneItem, anything else
 
 
@@ -134,12 +143,18 @@ class WF:
     def bound(self):
         return self.word() if self.r.random() < 0.7 else self.phrase()
 
+    def range_bound(self):
+        # ordinary bounds of a two-sided range, whatever the zeal: dates, date math, paths, signed numbers
+        if self.r.random() < 0.4:
+            return self.T.Word(self.r.choice(self.PITFALL_WORDS + ["2012-12-31", "now-1d", "now+1d/d", "a/c", "+5", "-5", "*"]))
+        return self.bound()
+
     def value(self, depth):
         T, r = self.T, self.r
         k = r.choice(["word", "phrase", "fuzzy", "prox", "boost", "fgroup", "range", "regex", "from", "to"]) \
             if depth > 0 else r.choice(["word", "phrase", "fuzzy", "prox", "range", "regex", "from", "to"])
         if k == "range":
-            b = lambda: self.bound() if r.random() < 0.8 else T.Prohibit(self.bound())  # noqa
+            b = lambda: self.range_bound() if r.random() < 0.8 else T.Prohibit(self.bound())  # noqa
             return T.Range(b(), b(), r.random() < 0.5, r.random() < 0.5)
         if k == "regex":
             return T.Regex(r.choice(self.REGEXES))
@@ -180,7 +195,7 @@ class WF:
         if k == "group":
             return T.Group(self.expr(depth - 1, T.Group))
         if k == "range":
-            return T.Range(self.bound(), self.bound(), r.random() < 0.5, r.random() < 0.5)
+            return T.Range(self.range_bound(), self.range_bound(), r.random() < 0.5, r.random() < 0.5)
         if k in ("fuzzy", "prox", "boost"):
             v = self.value(1 if k != "boost" else depth)
             while type(v).__name__.lower()[:4] != k[:4]:
@@ -438,6 +453,9 @@ def correspond(model_ok, res):
         T.Not(T.OrOperation(T.Not(W("a")))), T.OrOperation(), T.AndOperation(),
         T.AndOperation(W("a"), P('"b"'), W("c d")),
         T.Boost(T.Range(W("a b"), W("c")), 1), T.Boost(W("a b"), None),
+        T.SearchField("date", T.Range(W("2012-01-01"), W("2012-12-31"))), T.Range(W("*"), W("now-1d"), False, False),
+        T.SearchField("path", T.Range(W("a/b"), W("a/c"))), T.AndOperation(W("x"), T.Group(T.Range(W("-5"), W("+5")))),
+        T.Not(T.SearchField("d", T.Boost(T.Range(W("now-1d/d"), P('"2012-01-01 00:00"')), 2))),
         T.To(T.SearchField("x y", T.Group(W("a b")))),
         T.OrOperation(T.Group(T.AndOperation(T.SearchField("title", P('"foo bar"')),
                                              T.SearchField("body", P('"quick fox"')))),
@@ -512,6 +530,7 @@ def correspond(model_ok, res):
             res.notes.append("unmodelled input skipped: %s" % e)
             continue
         wf_py = wellformed(T, tree, z)
+        wfl_py = wellformed(T, tree, z, None, lenient=True)
         e, c = observe(check_mod, tree, z)
 
         # -- oracle: sharing of node objects must not matter (equal tree, every position its own object)
@@ -566,6 +585,12 @@ def correspond(model_ok, res):
             if wf_py and e[1]:
                 res.failures.append((dict(payload, clause="a well-formed tree is accepted", errors=e[1][:5]),
                                      None))
+            elif e[1] and wellformed(T, tree, z, None, lenient=True):
+                res.failures.append((dict(payload, clause="a well-formed tree is accepted (the bounds of a range are "
+                                          "values: dates, date math, paths and signed numbers are ordinary bounds at "
+                                          "every zeal)", errors=e[1][:5]), None))
+            if wellformed(T, tree, z, None, lenient=True):
+                dist["wellformed_lenient"] = dist.get("wellformed_lenient", 0) + 1
             if plugged:
                 d, p, kind, hidden, _ = plugged
                 ks = [kind_of(m) for m in e[1]]
@@ -599,7 +624,8 @@ def correspond(model_ok, res):
             dist["plug_frames"][str(nframes)] = dist["plug_frames"].get(str(nframes), 0) + 1
         else:
             gp = "NoPlug"
-        gcases.append("(mk %s %s %s %s %s %s)" % (lib.g_Z(z), before, ge, gc, lib.g_bool(wf_py), gp))
+        gcases.append("(mk %s %s %s %s %s %s %s)" % (lib.g_Z(z), before, ge, gc, lib.g_bool(wf_py),
+                                                     lib.g_bool(wfl_py), gp))
         payloads.append(payload)
         okind = "raised" if e[0] == "raised" else ("accepted" if not e[1] else "rejected")
         dist["outcome"][okind] = dist["outcome"].get(okind, 0) + 1
@@ -657,33 +683,41 @@ def correspond(model_ok, res):
 Definition E := errors is_word_char is_space.
 Definition K := call is_word_char is_space.
 Definition WFD := wellformed is_word_char is_space.
+Definition WFL := wellformed_lenient is_word_char is_space.
 Definition plugged := option (option cls * item * defect).
 Definition NoPlug : plugged := None.
 Definition Plug (p : option cls) (d : item) (k : defect) : plugged := Some (p, d, k).
-Definition mk (z : Z) (t : item) (e : outcome (list msgkind)) (k : outcome bool) (wf : bool) (pl : plugged) :=
-  (z, t, (e, k, wf), pl).
-Definition chk (c : Z * item * (outcome (list msgkind) * outcome bool * bool)
+Definition mk (z : Z) (t : item) (e : outcome (list msgkind)) (k : outcome bool) (wf wfl : bool)
+              (pl : plugged) :=
+  (z, t, (e, k, (wf, wfl)), pl).
+Definition chk (c : Z * item * (outcome (list msgkind) * outcome bool * (bool * bool))
                     * plugged) : bool :=
   match c with
-  | (z, t, (e, k, wf), pl) =>
+  | (z, t, (e, k, (wf, wfl)), pl) =>
       outcome_eqb (list_eqb msgkind_eqb) (E z t) e &&
       outcome_eqb Bool.eqb (K z t) k &&
       Bool.eqb (WFD z None t) wf &&
+      Bool.eqb (WFL z None t) wfl &&
       match pl with
       | None => true
       | Some (p, d, dk) => has_defect is_word_char is_space p d dk
       end
   end."""
         # canary: a deliberately wrong expectation must be reported
-        canary = "(mk %s %s (Done [MSpace]) (Done false) true NoPlug)" % (lib.g_Z(0), lib.g_item(W("a")))
+        canary = "(mk %s %s (Done [MSpace]) (Done false) true true NoPlug)" % (lib.g_Z(0), lib.g_item(W("a")))
+        # second canary: everything right except the lenient well-formedness bit (date range at zeal 1)
+        canary2 = "(mk %s %s (Done []) (Done true) false false NoPlug)" % (
+            lib.g_Z(1), lib.g_item(T.SearchField("date", T.Range(W("2012-01-01"), W("2012-12-31")))))
         try:
-            bad = lib.eval_cases("C20", "Base Decimal Tree TreeEq Lexer Check", defs, gcases + [canary], "chk",
-                                 shard=80)
+            bad = lib.eval_cases("C20", "Base Decimal Tree TreeEq Lexer Check CheckLenient", defs,
+                                 gcases + [canary, canary2], "chk", shard=80)
         except Exception as e:   # noqa
             res.model_error = str(e)
             bad = [len(gcases)]
         if len(gcases) not in bad:
             res.model_error = (res.model_error or "") + " canary case was not reported by eval_cases"
+        if len(gcases) + 1 not in bad:
+            res.model_error = (res.model_error or "") + " canary case (lenient well-formedness) was not reported"
         for i in bad:
             if i < len(gcases):
                 res.disagreements.append(dict(payloads[i], case=gcases[i][:1500]))
@@ -695,14 +729,19 @@ Definition chk (c : Z * item * (outcome (list msgkind) * outcome bool * bool)
 SPEC = {
     "id": "C20",
     "targets": ["props/C20.vo"],
-    "model_targets": ["model/Check.vo", "model/TreeEq.vo", "model/Lexer.vo"],
+    "model_targets": ["model/Check.vo", "model/CheckLenient.vo", "model/TreeEq.vo", "model/Lexer.vo"],
     "module": "C20",
     "theorems": ["C20_tie", "C20_total", "C20_consistent", "C20_accepts_wellformed", "C20_complete"],
+    "more": [{"module": "C20r", "target": "props/C20r.vo",
+              "theorems": ["C20r_range_bounds_not_inspected", "C20r_accepts_wellformed_lenient",
+                           "C20r_lenient_extends_strict"]}],
     "correspond": correspond,
     "statement": "LuceneCheck never raises and returns a list; __call__ is True exactly when errors() is "
                  "empty; a well-formed tree is accepted; one ill-formed construct (8 kinds) plugged in any "
                  "context of fields, groups, field groups, boosts, operations and prefixes is reported with "
-                 "its message and the tree is rejected",
+                 "its message and the tree is rejected; C20r: the bounds of a two-sided Range are never inspected, "
+                 "and acceptance holds for the wider `wellformed_lenient` (range bounds judged with zeal 0), which "
+                 "contains `wellformed`",
     "trusted_base": [
         "Coq 8.16.1 kernel (vm_compute used for table facts, witnesses and correspondence; no native_compute)",
         "no axioms (Print Assumptions: closed under the global context)",
